@@ -33,6 +33,26 @@ func vfPanicSite(stack string) string {
 	return "unknown"
 }
 
+// vfPanicInRepository: the function that panicked (the first frame below the runtime's panic frames) belongs to the
+// repository, not to the harness or a dependency.
+func vfPanicInRepository(stack string) bool {
+	if i := strings.Index(stack, "panic("); i >= 0 {
+		stack = stack[i:]
+	}
+	for _, m := range vfFrameRe.FindAllStringSubmatch(stack, -1) {
+		fn := m[1]
+		if strings.HasPrefix(fn, "runtime.") || fn == "panic" {
+			continue
+		}
+		if !strings.HasPrefix(fn, "github.com/oauth2-proxy/oauth2-proxy/v7") {
+			return false
+		}
+		last := fn[strings.LastIndex(fn, "/")+1:]
+		return !(strings.HasPrefix(last, "v7.vf") || strings.Contains(last, ".vf") || strings.Contains(last, "(*vf"))
+	}
+	return false
+}
+
 func vfMonitors(w *vfWorld, b *vfBrowser, rep *vfReplica, r *vfResp) {
 	// M-nopanic (C19)
 	if r.Panic != nil {
